@@ -49,6 +49,7 @@ REQUIRED = dict(monitors=['intensity-per-angle', 'flux', 'eclipse-spectrum', 'di
                          'fault:fired:temperature', 'fault:fired:chemistry', 'fault:fired:contribution', 'fault:fired:pressure',
                          'several:evaluation-judged', 'several:set_quadratures-on-another-model', 'wn-dtype:i', 'T-route:mixin', 'chemistry:makefree+file', 'nlayers:1', 'star:refill-same-size', 'star:temperature-written'])
 CUT = math.exp(-10.0)
+EPS = float(np.finfo(float).eps)
 _state = {}
 
 
@@ -209,6 +210,10 @@ def oracle(ctx, snap, spec):
     else:
         ctx.observe('no-clamp')
         atolI = np.zeros(nwn)
+    # rounding licence of the layered sum itself: every term is B_l times a DIFFERENCE of two exponentials in [0, 1];
+    # a thin hot layer (difference ~1e-9, B five decades above the emergent intensity) carries an absolute rounding
+    # error of a few eps * B_l whatever the order of evaluation, so two correct implementations agree to that only
+    atolI = atolI + 16 * EPS * (B[0] + np.sum(B, axis=0))
     # intensities per angle (rows of I follow the model's own node order)
     mine = {round(float(m), 12): I for m, I in zip(mus, Is)}
     for k in range(ng):
@@ -230,6 +235,7 @@ def oracle_ktable(ctx, snap, spec, dtau, ktau, kw):
     ctx.check('quadrature-nodes', ng == spec['ngauss'] and len(snap['inv_mu']) == ng, ng=ng)
     ctx.close('kweights-sum-to-one', float(np.sum(kw)), 1.0, 1e-12)
     B = np.array([R.planck_taurex_units(wn, t) / math.pi for t in snap['T']])
+    roundI = 16 * EPS * (B[0] + np.sum(B, axis=0))       # rounding licence of the layered sum (see oracle())
     above = np.zeros((n + 1, nwn))
     kabove = np.zeros((n + 1, nwn, ktau.shape[2]))
     for l in range(n - 1, -1, -1):
@@ -250,10 +256,10 @@ def oracle_ktable(ctx, snap, spec, dtau, ktau, kw):
     for k in range(ng):
         m = 1.0 / snap['inv_mu'][k]
         key = min(mine, key=lambda q: abs(q - m))
-        ctx.close('ktable-intensity-per-angle', snap['I'][k], mine[key], 1e-9, atol=1e-300, mu=m, ngauss=ng, nlayers=n,
+        ctx.close('ktable-intensity-per-angle', snap['I'][k], mine[key], 1e-9, atol=roundI, mu=m, ngauss=ng, nlayers=n,
                   ng_k=int(ktau.shape[2]))
-    ctx.close('ktable-flux', snap['f_total'], F, 1e-9, ngauss=ng)
-    return {'F': F, 'Is': np.array(Is), 'B': B, 'atolI': np.zeros(nwn), 'dtau': dtau, 'clampable': []}
+    ctx.close('ktable-flux', snap['f_total'], F, 1e-9, atol=math.pi * roundI, ngauss=ng)
+    return {'F': F, 'Is': np.array(Is), 'B': B, 'atolI': roundI, 'dtau': dtau, 'clampable': []}
 
 
 _kdir = [0]
